@@ -599,6 +599,8 @@ def gen_faults(rs, sc, P):
             if kind == "crash":
                 f["resume"] = rf.choice(P["resume_modes"])
                 f["when"] = rf.choice(["before", "before", "after"])
+                if sub(rs, "interrupt", len(out)).random() < P.get("interrupts", 0.0):
+                    f["exc"] = "interrupt"      # not an Exception subclass (KeyboardInterrupt)
             elif kind == "mutate_crash":
                 f["resume"] = rf.choice(P["resume_modes"])
             elif kind == "malformed":
